@@ -255,3 +255,68 @@ def fluids_keep_their_dimensions(T0: float, T1: float, od: float):
     assert c.getThermalExpansionFactor() == 1.0
     assert eq(c.getDimension("od"), od)
     assert eq(c.getArea(), math.pi * od * od / 4.0)
+
+
+class AbstractSolid2(Material):
+    """A second solid material with its own arbitrary expansion correlation Q(T)."""
+
+    def linearExpansionPercent(self, Tk=None, Tc=None):
+        return uf("Q", Tc)
+
+
+def linked_pair(od, clad, T0, Tf, Tg, fluidGap):
+    """fuel (material P, temperature Tf) and a gap / liner whose id is LINKED to fuel.od, of ANOTHER material
+    (Q, or a fluid) at ANOTHER temperature Tg"""
+    if NATIVE:
+        fuel = basic.Circle("fuel", "UZr", T0, Tf, od=od, id=0.0, mult=1)
+        gap = basic.Circle("gap", "Sodium" if fluidGap else "HT9", T0, Tg, od=od + clad, id="fuel.od", mult=1)
+        gap.resolveLinkedDims({"fuel": fuel})
+        return fuel, gap
+    fuel = solid(basic.Circle, D(od=od, id=0.0, mult=1), T0, Tf, 0.02)
+    assume(uf("Q", T0) > -100.0)
+    assume(uf("Q", Tg) > -100.0)
+    p = new(PMap, numberDensities={"FE": 0.02}, volume=None, detailedNDens=None, pinNDens=None, modArea=None, temperatureInC=Tg,
+            od=od + clad, id=DimensionLink((fuel, "od")), mult=1)
+    gap = new(basic.Circle, p=p, material=new(Fluid) if fluidGap else new(AbstractSolid2), inputTemperatureInC=T0, parent=None, cached={})
+    return fuel, gap
+
+
+@lemma(gen=dict(T0=(20.0, 30.0), Tf=(25.0, 700.0), Tg=(25.0, 700.0), od=(0.5, 2.0), clad=(0.05, 0.5), hot=(0.4, 2.0)))
+def hot_dimension_set_through_a_link_reads_back_on_both_components(T0: float, Tf: float, Tg: float, od: float, clad: float, hot: float, fluidGap: bool):
+    """Component.setDimension(key, hot, retainLink=True, cold=False) on a LINKED dimension, the two components being of
+    different materials (arbitrary laws P and Q, or a fluid) and at different temperatures: the hot value reads back
+    on the linking component AND is the owner's current dimension; a cold set through the link likewise."""
+    pos(od, clad, hot)
+    fuel, gap = linked_pair(od, clad, T0, Tf, Tg, fluidGap)
+    try:
+        assert eq(gap.getDimension("id"), fuel.getDimension("od")), "a linked dimension equals the other component's current dimension"
+        gap.setDimension("id", hot, retainLink=True, cold=False)
+        assert gap.dimensionIsLinked("id"), "the link is retained"
+        assert eq(fuel.getDimension("od"), hot), "the owner's current (hot) dimension is the value set through the link"
+        assert eq(gap.getDimension("id"), hot), "setting a hot dimension reads back that value"
+        assert eq(gap.getDimension("id"), fuel.getDimension("od"))
+        gap.setDimension("id", od / 2.0, retainLink=True, cold=True)
+        assert eq(fuel.getDimension("od", cold=True), od / 2.0), "a cold value set through the link is the owner's cold dimension"
+        assert eq(gap.getDimension("id", cold=True), od / 2.0)
+    except RuntimeError:
+        pass
+
+
+@lemma(gen=dict(T0=(20.0, 30.0), Tf=(25.0, 700.0), Tg=(25.0, 700.0), T2=(25.0, 700.0), od=(0.5, 2.0), clad=(0.05, 0.5)))
+def linked_dimension_follows_the_owner_at_the_owners_temperature(T0: float, Tf: float, Tg: float, T2: float, od: float, clad: float, fluidGap: bool):
+    """the linked dimension is evaluated at the OWNER's temperature and material, not at the linking component's:
+    components of different materials at different temperatures, then the owner alone changes temperature"""
+    pos(od, clad)
+    fuel, gap = linked_pair(od, clad, T0, Tf, Tg, fluidGap)
+    if not NATIVE:
+        assume(uf("P", T2) > -100.0)
+    try:
+        f = fuel.getThermalExpansionFactor()
+        assert eq(gap.getDimension("id"), od * f), "= the owner's cold dimension x the OWNER's expansion factor"
+        assert eq(gap.getDimension("id"), fuel.getDimension("od"))
+        fuel.setTemperature(T2)
+        assert eq(gap.getDimension("id"), od * fuel.getThermalExpansionFactor()), "follows the owner when only the owner's temperature changes"
+        assert eq(gap.getDimension("id"), fuel.getDimension("od"))
+        assert eq(gap.getDimension("id", cold=True), od)
+    except RuntimeError:
+        pass
